@@ -4,6 +4,7 @@
    conversions between OCaml int and the extracted inductive numbers, and
    printing. *)
 open Model
+type string = Stdlib.String.t
 
 let rec pos_of_int (n : int) : positive =
   if n = 1 then XH
@@ -112,6 +113,21 @@ let dispatch op r =
       let incl = rd_bool r in let files = rd_list r rd_str in
       let skip f = List.exists (fun s -> s = f) skips in
       pr_result (fun l -> pr_list pr_str l) (m_file_list skip fs incl files)
+  | "html" ->
+      let ctx = z_of_int (next_int r) in
+      let tex = rd_str r in let cm = rd_zlist r in
+      let ms = rd_list r (fun r ->
+          let o = z_of_int (next_int r) in let l = z_of_int (next_int r) in
+          let msg = rd_str r in let ct = rd_str r in
+          let co = z_of_int (next_int r) in let cl = z_of_int (next_int r) in
+          let rule = rd_str r in let repls = rd_list r rd_str in
+          let has = rd_bool r in let url = rd_str r in
+          { hm_offset = o; hm_length = l; hm_message = msg; hm_ctx_text = ct;
+            hm_ctx_offset = co; hm_ctx_length = cl; hm_rule = rule;
+            hm_repls = repls; hm_url = if has then Some url else None }) in
+      let file = rd_str r in
+      pr_result pr_str (m_generate_html ctx tex cm ms file)
+  | "protect_html" -> pr_str (m_protect_html (rd_str r))
   | _ -> raise Not_found
 
 let () =
